@@ -18,11 +18,6 @@ theorem prec_order :
        lvAdditive, lvMultiplicative, lvExponent, lvUnary, lvUpdate, lvLHS, lvCall, lvNew, lvMember, lvPrimary] := by
   decide
 
-/-- the three ES2021 logical assignment operators -/
-def isLogicalAssign : BOp → Bool
-  | .landEq | .lorEq | .nullishEq => true
-  | _ => false
-
 /-- what the printer needs of one row of the three binary maps: the precedence of the node is the level of its
     production; the left operand is printed at (at least) the nonterminal the production demands; the right operand
     too, except that `&&` and `||` print their right operand at their own level (re-association, harmless) -/
@@ -30,22 +25,16 @@ def rowOk (o : BOp) : Bool :=
   o.prec == opLevel o && opLeft o ≤ o.left &&
     (opRight o ≤ o.right || ((o == .land || o == .lor) && o.right == opLevel o))
 
-/-- full statement: every binary operator of the language has a correct row in `binaryLeftPrecMap`,
-    `binaryRightPrecMap`, `binaryOpPrecMap` -/
-def binary_tables_full : Prop := ∀ o : BOp, rowOk o = true
+/-- every binary operator of the language has a correct row in `binaryLeftPrecMap`, `binaryRightPrecMap`,
+    `binaryOpPrecMap` (a changed or missing row breaks this `decide`: a missing key is the Go zero value `OpExpr`) -/
+theorem binary_tables (o : BOp) : rowOk o = true := by
+  have h : ∀ o ∈ BOp.all, rowOk o = true := by decide
+  exact h o (BOp.mem_all o)
 
-/-- every operator except `&&=`, `||=`, `??=` has correct rows (a changed row breaks this `decide`) -/
-theorem binary_tables_partial (o : BOp) (g : isLogicalAssign o = false) : rowOk o = true := by
-  have h : ∀ o ∈ BOp.all, isLogicalAssign o = false → rowOk o = true := by decide
-  exact h o (BOp.mem_all o) g
-
-/-- `&&=`, `||=`, `??=` are missing from the maps: the Go map lookup yields `OpExpr`, so `a&&=(b,c)` loses its
-    parentheses -/
-theorem binary_tables_counterexample : ¬ binary_tables_full := by
-  intro h
-  exact absurd (h .landEq) (by decide)
-
-example : isLogicalAssign .add = false ∧ rowOk .add = true := by decide
+/-- the one context that may not accept a `??` operand although it is printed above `OpCoalesce`: the left operand of
+    `|` is printed strictly above `OpBitOr`, so the `??`-exception of group dropping (`p = OpBitOr`) never applies to it -/
+theorem bitor_left_above : BOp.bor.left > opBitOr ∧ BOp.nullish.left = opBitOr ∧ BOp.nullish.right = opBitOr := by
+  decide
 
 /-- the two unary maps: prefix operators print their operand as `UnaryExpression`, postfix ones as
     `LeftHandSideExpression`; the node is an `UpdateExpression` for `++`/`--` and a `UnaryExpression` otherwise -/
